@@ -162,6 +162,7 @@ type typeFlow struct {
 	seenIn map[*ssa.BasicBlock]bool
 	// results: state just before each non-commaok TypeAssert
 	at  map[*ssa.TypeAssert]tset
+	cmp map[*ssa.BinOp][2]tset // operand type sets just before each ==/!= of two interface values
 	out map[*ssa.BasicBlock]tstate
 }
 
@@ -356,6 +357,13 @@ func (tf *typeFlow) transfer(b *ssa.BasicBlock, st tstate, record bool) tstate {
 			}
 		}
 		switch x := in.(type) {
+		case *ssa.BinOp:
+			if record && (x.Op == token.EQL || x.Op == token.NEQ) && isIfaceType(x.X.Type()) && isIfaceType(x.Y.Type()) {
+				if tf.cmp == nil {
+					tf.cmp = map[*ssa.BinOp][2]tset{}
+				}
+				tf.cmp[x] = [2]tset{tf.get(st, x.X), tf.get(st, x.Y)}
+			}
 		case *ssa.TypeAssert:
 			if !x.CommaOk {
 				cur := tf.get(st, x.X)
